@@ -26,6 +26,9 @@ type c07Case struct {
 	Ys      []mon.F   `json:"ys,omitempty"`
 	Seed    uint64    `json:"seed,omitempty"`
 	Draws   int       `json:"draws,omitempty"`
+	// KDE only: sample weights and boundaries (0,0 = unbounded)
+	Ws  []float64 `json:"ws,omitempty"`
+	Bnd []mon.F   `json:"bnd,omitempty"`
 }
 
 func init() {
@@ -163,8 +166,14 @@ func c07Builtin(c c07Case) (stats.DistCommon, float64, string, bool) {
 		return stats.UDist{N1: int(p[0]), N2: int(p[1]), T: T}, 1, fmt.Sprintf("UDist{%d,%d,%v}", int(p[0]), int(p[1]), T), true
 	case "kde":
 		k := &stats.KDE{Sample: stats.Sample{Xs: append([]float64(nil), c.Xs...)}, Kernel: stats.KDEKernel(int(p[0])), Bandwidth: p[1]}
+		if len(c.Ws) == len(c.Xs) {
+			k.Sample.Weights = append([]float64(nil), c.Ws...)
+		}
+		if len(c.Bnd) == 2 {
+			k.BoundaryMin, k.BoundaryMax = float64(c.Bnd[0]), float64(c.Bnd[1])
+		}
 		lo, hi := stats.Bounds(c.Xs)
-		return k, math.Max(hi-lo, p[1]), fmt.Sprintf("KDE{n=%d,kernel=%d,h=%g}", len(c.Xs), int(p[0]), p[1]), false
+		return k, math.Max(hi-lo, p[1]), fmt.Sprintf("KDE{n=%d,kernel=%d,h=%g,weights=%v,bounds=%v}", len(c.Xs), int(p[0]), p[1], c.Ws, c.Bnd), false
 	}
 	return nil, 0, "", false
 }
@@ -266,20 +275,38 @@ func c07BuiltinInv(w *mon.W, c c07Case) {
 	if base == nil {
 		return
 	}
-	calls := 0
-	d := countingDist{base, &calls}
-	inv := stats.InvCDF(d)
 	w.HitIf(discrete, "discrete-builtin")
 	w.Hit("builtin-" + c.Kind)
+	if c.Kind == "kde" {
+		w.HitIf(len(c.Ws) > 0, "kde-weighted")
+		w.HitIf(len(c.Bnd) == 2, "kde-bounded")
+		w.HitIf(int(c.Params[0]) == 2, "kde-delta-kernel")
+	}
+	// Once through a wrapper that exposes only CDF and Bounds (and counts the
+	// CDF calls), once on the value itself, so that any path the generic
+	// function selects by the methods of the argument (PMF/Step, PDF) is
+	// executed as well.
+	calls := 0
+	c07BuiltinInvVia(w, c, base, scale, name, discrete, stats.InvCDF(countingDist{base, &calls}), &calls, "")
+	var direct func(float64) float64
+	if p, e := mon.Call(func() { direct = stats.InvCDF(base) }); p {
+		w.Violate("panic", fmt.Sprintf("%s: InvCDF panicked: %v", name, e), c)
+		return
+	}
+	w.Hit("unwrapped-builtin")
+	c07BuiltinInvVia(w, c, base, scale, name+" (passed directly)", discrete, direct, &calls, "-direct")
+}
+
+func c07BuiltinInvVia(w *mon.W, c c07Case, base stats.DistCommon, scale float64, name string, discrete bool, inv func(float64) float64, callsp *int, tag string) {
 	type pt struct{ y, x float64 }
 	var pts []pt
 	for _, yf := range c.Ys {
 		y := float64(yf)
 		one := c
 		one.Ys = []mon.F{yf}
-		calls = 0
+		*callsp = 0
 		var x float64
-		w.Eval("InvCDF(" + c.Kind + ")")
+		w.Eval("InvCDF(" + c.Kind + tag + ")")
 		if p, e := mon.Call(func() { x = inv(y) }); p {
 			if _, ok := e.(stepSentinel); ok {
 				w.Violate("step-budget", fmt.Sprintf("%s: inversion at y=%g made more than %d CDF calls", name, y, c07StepBudget), one)
@@ -335,8 +362,17 @@ func c07BuiltinInv(w *mon.W, c c07Case) {
 				noise := 1e-10 * y
 				if c.Kind == "kde" {
 					// kernel CDF averages carry absolute rounding noise (and are
-					// not monotone at that level)
+					// not monotone at that level); reflected ones are differences
 					noise += 1e-14
+					if len(c.Bnd) == 2 {
+						noise += 1e-13
+					}
+					if int(c.Params[0]) == 2 {
+						// the delta kernel's CDF is a sum of non-negative
+						// weights over the samples <= x: an exactly monotone
+						// step function, judged without any noise margin
+						noise = 0
+					}
 				}
 				up, down := base.CDF(x+delta), base.CDF(x-delta)
 				if math.IsNaN(x) || up < y-noise {
@@ -348,7 +384,7 @@ func c07BuiltinInv(w *mon.W, c c07Case) {
 			}
 			pts = append(pts, pt{y, x})
 			if w.WantSample() {
-				w.Sample(map[string]any{"dist": name, "y": y, "x": x, "cdf_calls": calls})
+				w.Sample(map[string]any{"dist": name, "y": y, "x": x, "cdf_calls": *callsp})
 			}
 		}
 	}
@@ -447,6 +483,7 @@ func c07Rand(w *mon.W, c c07Case) {
 			left = func(v float64) float64 { return base.CDF(v - 0.25) }
 		}
 		w.Hit("rand-builtin")
+		w.HitIf(cc.Kind == "kde" && len(c.Ws) > 0, "rand-kde-weighted")
 	}
 	N := c.Draws
 	gen := stats.Rand(base)
@@ -499,6 +536,15 @@ func c07Rand(w *mon.W, c c07Case) {
 		w.Violate("panic", fmt.Sprintf("%s: Rand with a zero first variate panicked: %v", name, e), c)
 	} else if math.IsInf(x, 0) || math.IsNaN(x) {
 		w.Violate("rand-zero", fmt.Sprintf("%s: Rand returned %g when the source's first variate was 0", name, x), c)
+	} else {
+		// the draw is still a function of the supplied source alone
+		for rep := 0; rep < 3; rep++ {
+			x2 := gen(rand.New(&zeroFirst{src: rand.NewSource(int64(c.Seed))}))
+			if math.Float64bits(x2) != math.Float64bits(x) {
+				w.Violate("rand-zero-deterministic", fmt.Sprintf("%s: two identically scripted sources (first variate 0, then seed %d) gave %g and %g", name, c.Seed, x, x2), c)
+				break
+			}
+		}
 	}
 	if w.WantSample() {
 		w.Sample(map[string]any{"dist": name, "draws": N, "ks": ks, "dkw_bound": eps})
@@ -597,7 +643,7 @@ func c07Ys(rng *mon.Rand, levels []float64) []mon.F {
 func c07Run(r *mon.Run) {
 	r.Rule("user-defined piecewise CDFs (ramps of slope>=5e-4, jumps, flats, pure step functions; centre anywhere in +-1e6; widths 1e-3..1e3) judged against the analytic generalized inverse; built-ins TDist, BinomialDist, HypergeometicDist, UDist, KDE judged through their own CDF; y uniform, at exact jump/kink levels and their neighbours one ulp away, 1e-300, 1-1e-16, 0, 1 and outside [0,1]; dispatch to own InvCDF/Rand methods; Rand: determinism, DKW bound (alpha=1e-9) on seeded draws, a source whose first variate is 0. Non-trivial = hits a class; distinct by hash of the CDF description.")
 	r.Assume("ramp slopes >= 5e-4 keep the float64 crossing within 2e-13 of the analytic one (tolerance 1e-9 relative, floor 1e-12)", "for built-ins the library's own CDF is the oracle (its accuracy is C05/C06/C02/C12's business)")
-	r.Gate("y-at-jump-or-kink-level", "centre>1e5", "centre<-1e5", "discrete-builtin", "scripted-zero-draw", "y-outside", "y=0-bounds-endpoint", "y=0-minus-inf", "y=1-bounds-endpoint", "y=1-plus-inf", "dispatch", "builtin-t", "builtin-binom", "builtin-hyperg", "builtin-udist", "builtin-kde", "rand-user", "rand-builtin", "pure-step")
+	r.Gate("y-at-jump-or-kink-level", "centre>1e5", "centre<-1e5", "discrete-builtin", "scripted-zero-draw", "y-outside", "y=0-bounds-endpoint", "y=0-minus-inf", "y=1-bounds-endpoint", "y=1-plus-inf", "dispatch", "builtin-t", "builtin-binom", "builtin-hyperg", "builtin-udist", "builtin-kde", "rand-user", "rand-builtin", "pure-step", "unwrapped-builtin", "kde-weighted", "kde-bounded", "kde-delta-kernel", "rand-kde-weighted")
 
 	r.Parallel("user", r.Pick(3000, 40000), func(w *mon.W, i int) {
 		rng := w.Rng
@@ -637,6 +683,26 @@ func c07Run(r *mon.Run) {
 				c.Xs = append(c.Xs, ctr+rng.Norm()*3)
 			}
 			c.Kind, c.Params = "kde", []float64{float64(rng.Intn(2)), rng.LogUniform(0.1, 5)}
+			if rng.Intn(4) == 0 {
+				c.Params[0] = 2 // DeltaKernel: the weighted empirical CDF
+			}
+			if rng.Intn(2) == 0 {
+				for j := 0; j < n; j++ {
+					c.Ws = append(c.Ws, rng.Pick(rng.LogUniform(0.01, 100), float64(rng.Range(1, 4)), rng.LogUniform(0.5, 2)))
+				}
+			}
+			if rng.Intn(3) == 0 {
+				lo, hi := stats.Bounds(c.Xs)
+				h := c.Params[1]
+				bmin, bmax := lo-rng.Uniform(0, 2*h), hi+rng.Uniform(0, 2*h)+1e-3
+				switch k := rng.Intn(3); {
+				case k == 0 || c.Params[0] == 2 && rng.Intn(2) == 0:
+					bmax = math.Inf(1)
+				case k == 1 || c.Params[0] == 2:
+					bmin = math.Inf(-1)
+				}
+				c.Bnd = []mon.F{mon.F(bmin), mon.F(bmax)}
+			}
 		}
 		return c
 	}
@@ -649,9 +715,13 @@ func c07Run(r *mon.Run) {
 			for k := 0; k < 4; k++ {
 				lv = append(lv, d.CDF(lo+float64(rng.Intn(int(hi-lo)+1))))
 			}
+		} else if c.Kind == "kde" && int(c.Params[0]) == 2 {
+			for k := 0; k < 4; k++ { // the jump levels of the weighted empirical CDF
+				lv = append(lv, d.CDF(c.Xs[rng.Intn(len(c.Xs))]))
+			}
 		}
 		c.Ys = c07Ys(rng, lv)
-		h := mon.NewHasher().S(c.Kind).Fs(c.Params).Fs(c.Xs)
+		h := mon.NewHasher().S(c.Kind).Fs(c.Params).Fs(c.Xs).Fs(c.Ws)
 		c07Judge(w, c)
 		w.Distinct(h.Sum())
 	})
@@ -680,6 +750,6 @@ func c07Run(r *mon.Run) {
 			c.Draws = nd / 5 // tied UDist and KDE CDFs are expensive
 		}
 		c07Judge(w, c)
-		w.Distinct(mon.NewHasher().S("rand").Fs(c.Xs).Fs(c.V).Fs(c.Params).Sum())
+		w.Distinct(mon.NewHasher().S("rand").Fs(c.Xs).Fs(c.V).Fs(c.Params).Fs(c.Ws).Sum())
 	})
 }
